@@ -325,20 +325,33 @@ func (c *Client) getCachedConfig(cacheDir string) (*Config, error) {
 		return nil, fmt.Errorf("no cached versions available")
 	}
 
-	// Get the latest file (files are sorted in descending order by timestamp)
-	latestFile := files[0]
+	// Use the latest file that can be read and parsed (files are sorted in
+	// descending order by timestamp). A newer file may be truncated if a
+	// previous cache write was interrupted; older versions are kept exactly
+	// so that such a file does not lose the cache.
+	var firstErr error
+	for _, file := range files {
+		data, err := os.ReadFile(file)
+		if err != nil {
+			if firstErr == nil {
+				firstErr = fmt.Errorf("failed to read cached config: %w", err)
+			}
+			continue
+		}
 
-	data, err := os.ReadFile(latestFile)
-	if err != nil {
-		return nil, fmt.Errorf("failed to read cached config: %w", err)
+		var config Config
+		if err := json.Unmarshal(data, &config); err != nil {
+			if firstErr == nil {
+				firstErr = fmt.Errorf("failed to parse cached config: %w", err)
+			}
+			log.Debugf("skipping unreadable cache file %s: %v", file, err)
+			continue
+		}
+
+		return &config, nil
 	}
 
-	var config Config
-	if err := json.Unmarshal(data, &config); err != nil {
-		return nil, fmt.Errorf("failed to parse cached config: %w", err)
-	}
-
-	return &config, nil
+	return nil, firstErr
 }
 
 // getCached returns the latest cached config with metadata
